@@ -84,6 +84,16 @@ HllArray<A>* HllArray<A>::copyAs(target_hll_type tgtHllType) const {
   }
 }
 
+// number of slots of an HLL_4 register array that refer to the auxiliary hash map
+static inline uint32_t countAuxTokens(const uint8_t* hll4Arr, uint32_t numBytes) {
+  uint32_t count = 0;
+  for (uint32_t i = 0; i < numBytes; ++i) {
+    if ((hll4Arr[i] & hll_constants::loNibbleMask) == hll_constants::AUX_TOKEN) ++count;
+    if ((hll4Arr[i] >> 4) == hll_constants::AUX_TOKEN) ++count;
+  }
+  return count;
+}
+
 template<typename A>
 HllArray<A>* HllArray<A>::newHll(const void* bytes, size_t len, const A& allocator) {
   if (len < hll_constants::HLL_BYTE_ARR_START) {
@@ -129,6 +139,9 @@ HllArray<A>* HllArray<A>::newHll(const void* bytes, size_t len, const A& allocat
   std::memcpy(&auxCount, data + hll_constants::AUX_COUNT_INT, sizeof(int));
   if (auxCount > 0 && tgtHllType != HLL_4) {
     throw std::invalid_argument("Auxiliary hash map in an image that is not HLL_4");
+  }
+  if (tgtHllType == HLL_4 && countAuxTokens(data + hll_constants::HLL_BYTE_ARR_START, arrayBytes) != auxCount) {
+    throw std::invalid_argument("Aux count does not match the number of exceptions in the HLL_4 array");
   }
 
   AuxHashMap<A>* auxHashMap = nullptr;
@@ -214,6 +227,9 @@ HllArray<A>* HllArray<A>::newHll(std::istream& is, const A& allocator) {
   read(is, sketch->hllByteArr_.data(), sketch->getHllByteArrBytes());
   if (!is.good())
     throw std::runtime_error("error reading from std::istream");
+  if (tgtHllType == HLL_4 && countAuxTokens(sketch->hllByteArr_.data(), sketch->getHllByteArrBytes()) != auxCount) {
+    throw std::invalid_argument("Aux count does not match the number of exceptions in the HLL_4 array");
+  }
 
   if (auxCount > 0) { // necessarily TgtHllType == HLL_4
     uint8_t auxLgIntArrSize = listHeader[4];
